@@ -174,7 +174,10 @@ def run_check(prop: str, tier: str, seed: int, replay: Optional[dict], *, profil
         n = n_quick if tier == "quick" else n_thorough
         rng = core.Rng(seed * 1000003 + 17)
         for i in range(n):
-            cases.append(eqlgen.gen_case(rng.fork(i), profile))
+            prof = profile
+            if profile == "c01+quant":
+                prof = "quant" if i % 4 == 3 else "c01"
+            cases.append(eqlgen.gen_case(rng.fork(i), prof))
             origin.append(f"gen:{i}")
 
     impl = run_impl_many(cases)
